@@ -1,6 +1,7 @@
 import TakVerif.Props.C07_compose3
 import TakVerif.Props.C07_check
 import TakVerif.Proofs.CheckEngineTak
+import TakVerif.Impl.ServerMove
 
 /-! # C07 — the last hypothesis about reachable states of the bot's no-crash theorem discharged: `ChkOK`
 
@@ -275,5 +276,115 @@ theorem bot_never_dead_minimax_final (c : Compose.Conf) (hguard : c.guard = true
     (Search.Eng.new (Search.takGame c.bot.basis ev sym) scfg) evs
   rw [h1]
   exact bot_never_dead_minimax_events c hguard hrep hdec hfix hsize ev sym scfg hdepth htbl secs evs' h2 (h3 hev)
+
+/-! ## "no server line parses to the pass" is a theorem of `playtak.ParseServer`'s model (C11) -/
+
+theorem slideDir_not_pass {sx sy ex ey : Int} {ty : Nat} (h : Tak.Server.slideDir sx sy ex ey = .ok ty) :
+    ty ≠ Facts.mtPass := by
+  unfold Tak.Server.slideDir at h
+  repeat' split at h
+  all_goals (cases h <;> try decide)
+
+/-- **`parseServer_not_pass`** — whatever bytes the server sends: a move `ParseServer` answers is a placement or a slide,
+never the pass (type code 0 is never written by it) -/
+theorem parseServer_not_pass (line : Go.Bytes) (m : Move) (h : Tak.Server.parseServer line = .ok m) :
+    m.type ≠ Facts.mtPass := by
+  unfold Tak.Server.parseServer at h
+  dsimp only at h
+  split at h
+  · cases h
+  · split at h
+    · -- "P"
+      unfold Tak.Server.parsePlace at h
+      repeat' split at h
+      all_goals (cases h <;> try (dsimp only; decide))
+    · split at h
+      · -- "M"
+        unfold Tak.Server.parseSlide at h
+        repeat' split at h
+        all_goals first | cases h | skip
+        dsimp only
+        exact slideDir_not_pass (by assumption)
+      · cases h
+
+/-- the move a `deliver` event carries is what `ParseServer` answers for some line -/
+def EvKParsed {χ ξ : Type} : EvK χ ξ → Prop
+  | .deliver _ (some m) => ∃ line, Tak.Server.parseServer line = .ok m
+  | _ => True
+
+theorem evKNoPass_of_parsed {χ ξ : Type} (e : EvK χ ξ) (h : EvKParsed e) : EvKNoPass e := by
+  cases e with
+  | deliver bits parsed =>
+    cases parsed with
+    | none => trivial
+    | some m =>
+      obtain ⟨line, hl⟩ := h
+      exact parseServer_not_pass line m hl
+  | _ => trivial
+
+/-- **`bot_never_dead_minimax_parsed`** — `bot_never_dead_minimax_final` with the last event hypothesis replaced by what
+the loop does: the move of every `deliver` event is what the model of `playtak.ParseServer` (C11) answers for a line.
+Only configuration hypotheses are left. -/
+theorem bot_never_dead_minimax_parsed (c : Compose.Conf) (hguard : c.guard = true) (hrep : c.replay = true)
+    (hdec : c.decline = true) (hfix : c.bot.fixed = true) (hsize : 3 ≤ c.size ∧ c.size ≤ 8)
+    (ev : Pos → Int) (sym csym : Pos → List Search.H) (scfg : Search.Cfg)
+    (hdepth : scfg.depth ≤ 15) (htbl : scfg.tableEntries ≠ some 0) (secs : Int)
+    (evs : List (EvK { o : Search.Oracle Move // Search.OrderOK o } ChkOracle))
+    (hev : ∀ e ∈ evs, EvKParsed e) :
+    (runK c (minimaxOK c.bot.basis ev sym scfg) (checkOK c.bot.basis csym)
+      (startK c secs (Search.Eng.new (Search.takGame c.bot.basis ev sym) scfg) (checkNew c.bot.basis csym)) evs).1.dead
+      = none :=
+  bot_never_dead_minimax_final c hguard hrep hdec hfix hsize ev sym csym scfg hdepth htbl secs evs
+    (fun e he => evKNoPass_of_parsed e (hev e he))
+
+/-! ## non-vacuity: a concrete run with both engines real -/
+
+instance {χ ξ : Type} (e : EvK χ ξ) : Decidable (EvKNoPass e) :=
+  match e with
+  | .deliver _ (some m) => inferInstanceAs (Decidable (m.type ≠ Facts.mtPass))
+  | .deliver _ none => isTrue trivial
+  | .close => isTrue trivial
+  | .timerFires => isTrue trivial
+  | .enter _ _ _ => isTrue trivial
+  | .leave _ _ => isTrue trivial
+
+namespace Ex4
+/-- the oracles of a call that is never cancelled and whose `sort.Sort` leaves the order alone -/
+def q : ChkOracle := ⟨Search.Oracle.quiet, fun _ _ _ => Iff.rfl⟩
+/-- bot White, `Friendly` without a rule, 3×3, the fixes applied -/
+def c3 : Compose.Conf := Ex.conf .white 3 (.friendly none) true
+/-- the bot's thinker 0 is started on the EMPTY board (ply 0) and asks `f.check` (`waitUndo`); it answers `a1`; Black
+plays `c3` (thinker 1, started off turn, has returned the zero move), the clock line starts thinker 2, which asks `f.check` about the ply-2 position -/
+def evs : List (EvK Move ChkOracle) :=
+  [.enter 0 q q, .leave 0 (place 0 0), .enter 1 q q, .leave 1 Bot.zeroMove,
+   .deliver ["Game#100", "P", "C3"] (some (place 2 2)), .deliver ["Game#100", "Time", "590", "590"] none, .enter 2 q q]
+def run : Compose.St Unit Move × Search.Eng Move :=
+  runK c3 stubSearcher (checkOK Ex.zb (fun _ => [])) (startK c3 600 () (checkNew Ex.zb (fun _ => []))) evs
+end Ex4
+
+/-- the ply-0 call of the run reaches `waitUndo` (so `ChkOK` is about something), the real check engine reports value 0
+at depth 3 there — no win in one claimed —, both calls are let in, nobody dies, and no event carries the pass: the
+hypotheses of `chkOK_threaded` / `bot_never_dead_minimax_final` are met by a run in which the discharged hypothesis
+matters -/
+example :
+    reachesCheck Ex4.c3 (Compose.start Ex4.c3 600 () : Compose.St Unit Move) 0 = true ∧
+    Ex4.run.1.dead = none ∧
+    Ex4.run.1.calls.map (fun call => (call.pos.move, call.chk.curV, call.chk.curDepth, asksPrev call.chk)) =
+      [(0, 0, 3, false), (1, 0, 3, false), (2, 0, 3, false)] ∧
+    (∀ e ∈ Ex4.evs, EvKNoPass e) ∧ (3 ≤ Ex4.c3.size ∧ Ex4.c3.size ≤ 8) := by
+  decide +kernel
+
+/-- `checkOK_analyze` on the empty 3×3 board, new check engine: value 0 at `Stats.Depth` 3 -/
+example :
+    (match Pos.new ⟨3, 0, 0, false⟩ with
+     | .ok p0 => ((checkOK Ex.zb (fun _ => [])).analyze Ex4.q p0 (checkNew Ex.zb (fun _ => []))).toOption.map (·.1)
+     | .error _ => none) = some (0, 3) := by
+  decide +kernel
+
+/-- `parseServer_not_pass`: "P A1" and "M A1 A2 1" parse to a placement and a slide -/
+example :
+    (Tak.Server.parseServer [80, 32, 65, 49]).toOption.map (·.type) = some Facts.mtPlaceFlat ∧
+    (Tak.Server.parseServer [77, 32, 65, 49, 32, 65, 50, 32, 49]).toOption.map (·.type) = some Facts.mtSlideUp := by
+  decide +kernel
 
 end C07
